@@ -231,9 +231,24 @@ def let_phase(chk, hy, impl, sigs, results, n_calls, max_args):
         ll = impl.ll_model(s.tokens())
         body = Dict([x for n in names for x in (String(n), Symbol(n))])
         bindings = List([x for i, n in enumerate(names) for x in (Symbol(n), Integer(555000 + i))])
-        for kind in ("fn", "defn"):
+        import re as _re
+        for kind in ("fn", "defn", "defn-own-name"):
+            kpyf = pyf
             if kind == "fn":
                 form = Expression([Symbol("let"), bindings, Expression([Symbol("fn"), ll, body])])
+            elif kind == "defn-own-name":
+                # the defn's own name is let-bound too and a default mentions it: defaults are evaluated before the
+                # function's name is bound, so they see the let variable (as a Python default sees the earlier binding)
+                idx = next((i for i, x in enumerate(ll) if isinstance(x, List) and len(x) == 2), None)
+                if idx is None:
+                    continue
+                ll2 = List(list(ll[:idx]) + [List([ll[idx][0], Symbol("let-f")])] + list(ll[idx + 1:]))
+                b2 = List([Symbol("let-f"), Integer(777000)] + list(bindings))
+                form = Expression([Symbol("let"), b2, Expression([Symbol("defn"), Symbol("let-f"), ll2, body]),
+                                   Symbol("let-f")])
+                env2 = {}
+                exec("def f(%s):\n    return %s\n" % (_re.sub(r"=\d+", "=777000", s.python(), count=1), body_py), env2)
+                kpyf = env2["f"]
             else:
                 form = Expression([Symbol("let"), bindings, Expression([Symbol("defn"), Symbol("let-f"), ll, body]),
                                    Symbol("let-f")])
@@ -245,8 +260,9 @@ def let_phase(chk, hy, impl, sigs, results, n_calls, max_args):
                 continue
             for _ in range(n_calls):
                 pos, kw = P.gen_call(rng, s, max_args)
-                r_hy, r_py = P.run_call(hf, pos, kw), P.run_call(pyf, pos, kw)
+                r_hy, r_py = P.run_call(hf, pos, kw), P.run_call(kpyf, pos, kw)
                 chk.count("let-enclosed:" + ("bound" if r_py != "TypeErr" else "typeerror"))
+                chk.count("let-enclosed:" + kind)
                 if s.posonly:
                     chk.count("let-enclosed:positional-only")
                 chk.case(("let", kind, s.key(), tuple(pos), tuple(kw)), nontrivial=bool(pos) or bool(kw))
